@@ -9,7 +9,8 @@ Record robs := mkobs {
   o_hids : list nat;             (* ids of the handlers that ran, in order *)
   o_vars : list (seg * seg);     (* pathvar.Vars(r) seen by the handler, sorted by name *)
   o_allow : list string;         (* Allow header split at ", ", sorted *)
-  o_nf : nat                     (* calls of the custom not-found handler *)
+  o_nf : nat;                    (* calls of the custom not-found handler *)
+  o_path : option (list N)       (* request built from a raw URL: r.URL.Path as produced by net/http *)
 }.
 
 (* registration through the engine: what bindRoutes returned, the paths stored in ng.routes (after
@@ -20,6 +21,12 @@ Record eobs := mkeobs {
   e_calls : list (string * list N * nat)
 }.
 
+(* one step of a router history with what was observed: a registration (error class, path.Clean of
+   the path) or a request *)
+Inductive xop :=
+| XReg (m : string) (p : list N) (e : nat) (rc : list N)
+| XReq (m : string) (p : list N) (o : robs).
+
 Record case := mkcase {
   c_tree : bool;                           (* true: lib/search Tree.Add / Tree.Search on raw routes *)
   c_nf : bool;                             (* custom not-found handler installed *)
@@ -29,7 +36,8 @@ Record case := mkcase {
   c_reqs : list (string * list N);
   c_res : list robs;
   c_groups : list group;                   (* engine cases: groups as given to AddRoutes (ids = flat index) *)
-  c_eng : option eobs                      (* Some: engine case (c_regs .. c_rclean unused) *)
+  c_eng : option eobs;                     (* Some: engine case (c_regs .. c_rclean unused) *)
+  c_ops : list xop                         (* non-empty: router history (handler id = index of its XReg) *)
 }.
 
 Definition err_code (e : option err) : nat :=
@@ -78,6 +86,8 @@ Definition hit_ok (o : robs) (r : hit) : bool :=
 
 Definition model_req (tree_level nf : bool) (tb : table) (mp : string * list N) (o : robs) : bool :=
   let (m, p) := mp in
+  (* net/http decoded the raw target exactly once into the intended path *)
+  match o_path o with Some q => bytes_eqb q p | None => true end &&
   bytes_eqb (clean p) (match o_clean o with Some q => q | None => p end) &&
   match (if tree_level then
            match (match tb_get m tb with Some t => search p t | None => [] end) with [] => NotFound | rs => Hit rs end
@@ -107,7 +117,17 @@ Fixpoint model_calls (tb : table) (rs : list reg) : list (string * list N * nat)
 Definition call_eqb (a b : string * list N * nat) : bool :=
   String.eqb (fst (fst a)) (fst (fst b)) && bytes_eqb (snd (fst a)) (snd (fst b)) && Nat.eqb (snd a) (snd b).
 
+Fixpoint model_hist (nf : bool) (tb : table) (idx : nat) (ops : list xop) : bool :=
+  match ops with
+  | [] => true
+  | XReg m p e rc :: rest =>
+      let (tb', e') := handle tb m p idx in
+      Nat.eqb (err_code e') e && bytes_eqb (clean p) rc && model_hist nf tb' (S idx) rest
+  | XReq m p o :: rest => model_req false nf tb (m, p) o && model_hist nf tb (S idx) rest
+  end.
+
 Definition model_ok (c : case) : bool :=
+  match c_ops c with _ :: _ => model_hist (c_nf c) [] 0 (c_ops c) | [] =>
   match c_eng c with
   | Some eo =>
       let rs := engine_routes (c_groups c) in
@@ -121,7 +141,7 @@ Definition model_ok (c : case) : bool :=
       | Some tb => all2 (model_req (c_tree c) (c_nf c) tb) (c_reqs c) (c_res c)
       | None => false
       end
-  end.
+  end end.
 
 (* ------------------------------------------------------------------ the property on observations *)
 Definition is_none {A} (o : option A) : bool := match o with None => true | Some _ => false end.
@@ -162,7 +182,8 @@ Fixpoint nodup_str (l : list string) : list string :=
   match l with [] => [] | a :: r => if mem_str a r then nodup_str r else a :: nodup_str r end.
 
 Definition spec_req (nf : bool) (acc : list route) (mp : string * list N) (o : robs) : bool :=
-  let (m, p) := mp in
+  let (m, p0) := mp in
+  let p := match o_path o with Some q => q | None => p0 end in   (* the request path is r.URL.Path *)
   match req_segs (clean p) with
   | None =>  (* the cleaned path has no segments: nothing matches *)
       N.eqb (o_status o) 404 && is_nil (o_hids o) && Nat.eqb (o_nf o) (if nf then 1 else 0)
@@ -211,7 +232,8 @@ Definition spec_req_tree (acc : list route) (mp : string * list N) (o : robs) : 
 
 (* a handler that ran belongs to a matching pattern of acc (nothing is required to run) *)
 Definition spec_req_sound (acc : list route) (mp : string * list N) (o : robs) : bool :=
-  let (m, p) := mp in
+  let (m, p0) := mp in
+  let p := match o_path o with Some q => q | None => p0 end in
   match o_hids o with
   | [] => true
   | [h] => match req_segs (clean p) with
@@ -233,7 +255,18 @@ Definition spec_engine (c : case) (eo : eobs) : bool :=
             else all2 (spec_req_sound acc) (c_reqs c) (c_res c)
   end.
 
+(* histories: every request is judged against the routes registered (observed accepted) before it *)
+Fixpoint spec_hist (nf : bool) (acc : list route) (idx : nat) (ops : list xop) : bool :=
+  match ops with
+  | [] => true
+  | XReg m p e _ :: rest =>
+      if negb (is_none (reject acc m p)) && Nat.eqb e 0 then false
+      else spec_hist nf (if Nat.eqb e 0 then acc ++ [(m, pattern_of p, idx)] else acc) (S idx) rest
+  | XReq m p o :: rest => spec_req nf acc (m, p) o && spec_hist nf acc (S idx) rest
+  end.
+
 Definition spec_ok (c : case) : bool :=
+  match c_ops c with _ :: _ => spec_hist (c_nf c) [] 0 (c_ops c) | [] =>
   match c_eng c with
   | Some eo => spec_engine c eo
   | None =>
@@ -243,7 +276,7 @@ Definition spec_ok (c : case) : bool :=
           else all2 (spec_req (c_nf c) acc) (c_reqs c) (c_res c)
       | None => false
       end
-  end.
+  end end.
 
 (* used by the encoder for tree-level cases, where path.Clean is not involved *)
 Definition xclean : list N -> list N := clean.
